@@ -58,7 +58,7 @@ def gen_echo_program(rng):
         name = "E%d" % i
         prev = [c["result"] for c in cmds]
         args = {}
-        kinds = rng.sample(["S", "N", "B", "P", "T", "LN", "LS", "LB", "LLN", "LLS", "R", "LR", "LLR", "Tup", "Metadata"], rng.randint(1, 6))
+        kinds = rng.sample(["S", "N", "B", "P", "T", "LN", "LS", "LB", "LLN", "LLS", "R", "LR", "LLR", "Tup", "Metadata", "LU"], rng.randint(1, 6))
         for k in kinds:
             if k == "S":
                 args[k] = rng.choice(STR_POOL)
@@ -80,6 +80,8 @@ def gen_echo_program(rng):
                 args[k] = [rng.choice(STR_POOL) for _ in range(rng.randint(0, 4))]
             elif k == "LB":
                 args[k] = [rng.choice([True, False]) for _ in range(rng.randint(0, 3))]
+            elif k == "LU":
+                args[k] = [rng.choice([1, 2.5, "w", "two words"]) if rng.random() < 0.5 else [rng.choice([1, 0.25, "x"]) for _ in range(rng.randint(0, 3))] for _ in range(rng.randint(0, 4))]
             elif k == "LLN":
                 args[k] = [[rng.choice(NUM_POOL) for _ in range(rng.randint(0, 3))] for _ in range(rng.randint(0, 3))]
             elif k == "LLS":
@@ -135,7 +137,7 @@ def cases(ctx):
 
 # ---------------------------------------------------------------- building P
 ECHO_KINDS = {"S": "string", "N": "number", "B": "boolean", "P": "path", "T": "datatype", "LN": "list:number", "LS": "list:string", "LB": "list:boolean",
-              "LLN": "list:list:number", "LLS": "list:list:string", "R": "result", "LR": "list:result", "LLR": "list:list:result", "Tup": "tuple", "Metadata": "tuple"}
+              "LLN": "list:list:number", "LLS": "list:list:string", "R": "result", "LR": "list:result", "LLR": "list:list:result", "Tup": "tuple", "Metadata": "tuple", "LU": "list:any"}
 
 
 def echo_ast(cmds, rng):
